@@ -219,6 +219,87 @@ ResizeMap == {<<S("resize_dind", f, v)>> : f \in {"rsv_first", "rsv_quarter", "r
 
 C02Closed == Relocs \cup ResizeMap
 
+(***************************************************************************)
+(* C02 only: FIELD-WIDTH and RANGE-BOUNDARY catalogue (closed set          *)
+(* C02Bounds; kept outside Singles / Catalogue, so C01's universe is what  *)
+(* it was).  Every element is a single-field corruption with the object's  *)
+(* checksum recomputed: the field is the ONLY thing wrong.                 *)
+(*                                                                         *)
+(* (a) HIGH HALVES.  With 64bit (descriptors of >= 64 bytes) every         *)
+(* per-group count and location is  lo | hi << 16 (32), and an inode's     *)
+(* i_size, i_blocks, i_file_acl, uid, gid have a high part in the inode    *)
+(* body.  The property speaks about the VALUE (the per-group count, the    *)
+(* block the inode references), so a corruption confined to the high half  *)
+(* breaks the same invariant as one of the low half: a checker that reads  *)
+(* only the low half (or the high half of a neighbouring field) must not   *)
+(* pass.  The independent reader composes the full-width value             *)
+(* (reader/ext4read.py parse_gd, parse_inode); GroupCounts / InRange /     *)
+(* Shapes of Ext4Abs are stated over that value.                           *)
+(*                                                                         *)
+(* (b) EXACT BOUNDARIES of the range tests.  A block number b is valid iff *)
+(* first_data_block <= b < blocks_count; an inode number n names a user    *)
+(* inode iff first_ino <= n <= inodes_count; a per-group count c is        *)
+(* possible iff 0 <= c <= objects per group.  The value classes below are  *)
+(* the last valid and the first invalid value on either side of each test  *)
+(* (an off-by-one in a range test shows at exactly one of them).           *)
+(***************************************************************************)
+BlkBoundV == {"last_valid", "first_invalid", "first_data", "below_first_data"}
+InoBoundV == {"inodes_count", "inodes_count_p1", "first_ino_m1"}
+CntBoundV == {"grp_max", "grp_max_p1"}
+HiV       == {"plus1", "max"}
+
+\* the block-number / inode-number / count fields of a field table: read off the value classes the table already gives them
+BlkFieldsOf(tbl) == {f[1] : f \in {x \in tbl : x[2] \in {"alias_meta", "alias_group"}}}
+InoFieldsOf(tbl) == {f[1] : f \in {x \in tbl : x[2] \in {"free_ino", "alias_other"}}} \ {f[1] : f \in {x \in tbl : x[2] \in {"alias_meta", "alias_group"}}}
+BoundsOf(tbl)    == UNION {F(f, BlkBoundV) : f \in BlkFieldsOf(tbl)} \cup UNION {F(f, InoBoundV) : f \in InoFieldsOf(tbl)}
+
+InodeHi == F("size_hi", HiV) \cup F("blocks_hi", HiV) \cup F("file_acl_hi", HiV) \cup F("uid_hi", HiV) \cup F("gid_hi", HiV)
+GroupDescHi ==
+    F("bg_block_bitmap_hi", HiV) \cup F("bg_inode_bitmap_hi", HiV) \cup F("bg_inode_table_hi", HiV)
+    \cup F("bg_free_blocks_hi", HiV) \cup F("bg_free_inodes_hi", HiV) \cup F("bg_used_dirs_hi", HiV) \cup F("bg_itable_unused_hi", HiV)
+    \cup F("bg_bb_csum_hi", {"plus1"}) \cup F("bg_ib_csum_hi", {"plus1"})
+GroupDescCnt == UNION {F(f, CntBoundV) : f \in {"bg_free_blocks", "bg_free_inodes", "bg_used_dirs", "bg_itable_unused"}}
+
+InodeBounds == BoundsOf(MappedInode) \cup F("ib_tind", BlkBoundV) \cup InodeHi
+BlockRoleBounds == [r \in DOMAIN BlockRoles |->
+    BoundsOf(BlockRoles[r])
+    \cup (IF r \in {"gd_first", "gd_mid", "gd_last"} THEN GroupDescHi \cup GroupDescCnt ELSE {})
+    \cup (IF r = "sb" THEN F("s_mmp_block", BlkBoundV) ELSE {})]
+
+\* (what Singles already has -- size_hi.max -- is not repeated)
+C02Bounds ==
+    ({[role |-> r, field |-> f[1], vc |-> f[2]] : r \in InodeRoles, f \in InodeBounds}
+     \cup UNION {{[role |-> r, field |-> f[1], vc |-> f[2]] : f \in BlockRoleBounds[r]} : r \in DOMAIN BlockRoles}) \ Singles
+
+\* every block-number field of an inode, of a tree block and of a descriptor is there, with every boundary class
+ASSUME \A f \in {"file_acl", "ee_start", "ee2_start", "ib0", "ib11", "ib_ind", "ib_dind", "ib_tind"} : \A v \in BlkBoundV : <<f, v>> \in InodeBounds
+ASSUME \A f \in {"bg_block_bitmap", "bg_inode_bitmap", "bg_inode_table"} : \A v \in BlkBoundV : <<f, v>> \in BlockRoleBounds["gd_mid"]
+ASSUME \A f \in {"s_journal_inum", "s_last_orphan", "s_orphan_file_inum", "s_usr_quota_inum"} : \A v \in InoBoundV : <<f, v>> \in BlockRoleBounds["sb"]
+ASSUME \A k \in {"d0", "d1", "d2", "dlast"} : \A v \in InoBoundV : <<k \o "_inode", v>> \in BlockRoleBounds["dirblk_lin"]
+
+(***************************************************************************)
+(* C02 only: superblock recipes ON THE TOOL-BUILT IMAGES of                *)
+(* gen/c02_extras.py (htree directories whose names have bytes >= 0x80,    *)
+(* one image per hash version x signedness).  Whether such an index is     *)
+(* well-formed depends on the hash the SUPERBLOCK prescribes: s_flags      *)
+(* (signed / unsigned directory hash) selects the variant of the hash the  *)
+(* dx_root names.  So the superblock fields that select the hash are       *)
+(* corrupted on every one of those images (checksum recomputed): each bit  *)
+(* of s_flags, both hash bits at once (signed <-> unsigned), every value   *)
+(* of s_def_hash_version; plus the whole Superblock table.  The reader     *)
+(* judges Shapes with the hash the corrupted superblock prescribes.        *)
+(***************************************************************************)
+SFlagsV      == {"tog_signed_hash", "tog_unsigned_hash", "tog_both_hash", "tog_test_fs", "tog_unknown"}
+HashVersionV == {"hv_legacy", "hv_half_md4", "hv_tea", "hv_legacy_unsigned", "hv_half_md4_unsigned", "hv_tea_unsigned", "hv_siphash", "hv_beyond", "max"}
+HashSelect   == F("s_flags", SFlagsV) \cup F("s_def_hash_version", HashVersionV)
+HtreeExtras  == {h \o "_" \o s : h \in {"legacy", "halfmd4", "tea"}, s \in {"signed", "unsigned"}}
+\* run by every tier on every image of HtreeExtras
+ExtraHashRecipes == {[role |-> "sb", field |-> f[1], vc |-> f[2]] : f \in HashSelect}
+\* thorough: all; quick: a seeded sample
+ExtraSbRecipes   == {[role |-> "sb", field |-> f[1], vc |-> f[2]] : f \in Superblock}
+\* the hash selectors are also bound on the base images (ASCII names: both variants of a hash agree there)
+C02Hash == ExtraHashRecipes
+
 ASSUME PairSeeds \subseteq Singles
 ASSUME \A t \in Triples : \A k \in 1..3 : t[k] \in Singles
 
